@@ -1394,8 +1394,11 @@ def rule_invs2(ctx):
                     "_set_generator", "set_generator"):
                 kw = next((k.value for k in c.keywords
                            if k.arg == "compute_inverse"), None)
+                pos = ctx.p.positional_args(c)
                 if isinstance(kw, ast.Constant) and kw.value is False \
-                        and len(c.args) >= 2:
+                        and len(pos) >= 2 and not any(
+                            isinstance(a, ast.Starred) for a in pos):
+                    c._pos = pos[:2]
                     calls.append(c)
         if not calls:
             continue
@@ -1407,7 +1410,7 @@ def rule_invs2(ctx):
                 loops[lp.target.id] = lp
         by_letter = {}
         for c in calls:
-            by_letter.setdefault(dotted(c.args[0]), []).append(c)
+            by_letter.setdefault(dotted(c._pos[0]), []).append(c)
         done = set()
         for letter, cs in by_letter.items():
             if letter in done:
@@ -1437,8 +1440,8 @@ def rule_invs2(ctx):
                            "in a form this rule does not read (not judged)")
                 continue
             done.add(partner)
-            e1 = cs[0].args[1]
-            e2 = by_letter[partner][0].args[1]
+            e1 = cs[0]._pos[1]
+            e2 = by_letter[partner][0]._pos[1]
 
             class Sub(ast.NodeTransformer):
                 def visit_Name(self, nm):
